@@ -7,7 +7,7 @@ import itertools
 import numpy as np
 
 from . import core, probe
-from .monitors_transform import parse
+from .monitors_transform import parse, pristine
 from .monitors_tdmd import match_multiset
 
 P = 'C19'
@@ -15,7 +15,7 @@ H = 1e-30
 
 
 def prod_fn(basis_list, s):
-    fs = [basis_list[k][s[k]] for k in range(len(s))]
+    fs = pristine([basis_list[k][s[k]] for k in range(len(s))])  # (one independent copy per mode position, also when the list holds one object twice)
 
     def F(x):
         out = 1.0
@@ -118,7 +118,7 @@ class Amuset(probe.Contract):
         thr, rel = v['threshold'], bool(v['rel_threshold'])
         part = np.ones((1, m))
         for k in range(len(bl)):
-            fk = np.array([[float(f(X[:, j])) for j in range(m)] for f in bl[k]])
+            fk = np.array([[float(f(X[:, j])) for j in range(m)] for f in pristine(bl[k])])
             part = np.einsum('aj,bj->abj', part, fk).reshape(-1, m)
             if k == len(bl) - 1:
                 part = part * np.sqrt(ww)[None, :]
